@@ -1024,3 +1024,40 @@ def check_perm_mixed_direction(prog, rep, rels, rule='PERM-mixed-direction'):
                     rep.instance(rule, {'function': q, 'permutation': p,
                                         'direction': 'gather' if p in gathers else 'scatter'})
     return n
+
+
+# ---------------------------------------------------------------------------------------------
+# RESHAPE-C-order: fusing / splitting legs re-interprets a block with the C-ordered strides of the
+# pipe (LegPipe._strides, q_map). `reshape(.., order='A'|'F')` follows the MEMORY layout of the
+# block instead (Fortran for a transposed view) and puts the entries at other fused indices.
+def check_reshape_order(prog, rep, rels, rule='RESHAPE-C-order'):
+    import ast
+    from .core import unparse, key_text
+
+    def scan(tree):
+        out = []
+        for c in ast.walk(tree):
+            if isinstance(c, ast.Call) and ((isinstance(c.func, ast.Attribute) and
+                                             c.func.attr == 'reshape') or
+                                            unparse(c.func) in ('np.reshape', 'numpy.reshape')):
+                for k in c.keywords:
+                    if k.arg == 'order' and not (isinstance(k.value, ast.Constant) and
+                                                 k.value.value == 'C'):
+                        out.append(c)
+        return out
+    fx = ast.parse("def f(b, shape):\n    v = b.reshape(shape, order='A')\n    w = b.reshape(shape)\n"
+                   "    return v, w\n")
+    rep.control(rule, len(scan(fx)) == 1)
+    n = 0
+    for rel in rels:
+        m = prog.module(rel)
+        rep.unit(m)
+        for q, f in m.functions.items():
+            n += 1
+            for c in scan(f):
+                rep.violation(rule, m, q, 'reshape-order', '`%s` reshapes with a memory-layout '
+                              'dependent order; fused indices of leg pipes are C-ordered: a '
+                              'Fortran-contiguous block (transposed view) lands at other positions'
+                              % key_text(c)[:70], c.lineno)
+    rep.instance(rule, {'modules': list(rels), 'functions_scanned': n})
+    return n
